@@ -2,7 +2,7 @@
 # usage: tools/verify_seed.sh <ID> <A|B> "<demo command>"
 # Confirms in the scratch worktree /tmp/seed/<ID>: patch builds, 66 tests pass, demo fails with / passes without.
 id="$1"; ab="$2"; demo="$3"
-wt=/tmp/seed/$id; out=$wt/seed_out/$ab; log=$wt/verify_$ab.log
+wt=${SEED_BASE:-/tmp/seed}/$id; out=$wt/seed_out/$ab; log=$wt/verify_$ab.log
 cd "$wt" || exit 2
 export CARGO_NET_OFFLINE=true
 {
